@@ -2,3 +2,24 @@
 static int64_t vf28_clock_last;
 int64_t nondet_i64(void);
 uint64_t x__ZNSt6chrono3_V212system_clock3nowEv(void) { int64_t t = nondet_i64(); __CPROVER_assume(t >= vf28_clock_last && t < ((int64_t)1 << 62)); vf28_clock_last = t; return (uint64_t)t; }
+/* std::string members used by line-text handling (include after cxx.c; ISO C++ semantics):
+   find_last_not_of(const char *set, size_t pos): index of the last character at or before pos that is not in set, npos if none;
+   substr(pos, n): copy of [pos, pos + min(n, size - pos)) (pos <= size within the harness bounds, asserted) */
+uint64_t x__ZNKSt7__cxx1112basic_stringIcSt11char_traitsIcESaIcEE16find_last_not_ofEPKcm(vstr *s, uint8_t *set, uint64_t pos)
+{
+  uint64_t n = VS_N(s); if (n == 0) return (uint64_t)-1;
+  uint64_t i = pos < n - 1 ? pos : n - 1;
+  for (uint64_t k = 0; k <= VF_MAXCOPY; k++) {
+    uint8_t c = VS_P(s)[i]; int in = 0; for (uint64_t j = 0; j < 8 && set[j]; j++) if (set[j] == c) in = 1;
+    if (!in) return i;
+    if (i == 0) return (uint64_t)-1;
+    i--;
+  }
+  return (uint64_t)-1;
+}
+void x__ZNKSt7__cxx1112basic_stringIcSt11char_traitsIcESaIcEE6substrEmm(vstr *res, vstr *s, uint64_t pos, uint64_t n)
+{
+  __CPROVER_assert(pos <= VS_N(s), "string model: substr position within the string (std::out_of_range otherwise)");
+  uint64_t m = VS_N(s) - pos; if (n < m) m = n;
+  vs_init_len(res, VS_P(s) + pos, m);
+}
